@@ -244,6 +244,27 @@ class Taint:
                         for key, lb in list(self.t[src_path].items()):
                             if isinstance(key, tuple) and key[0] == 0 and 'p' not in s.dest:
                                 ch |= self._mark(fp, (s.dest['l'], key[1]), lb)
+            elif lab and re.search(r'::(map|filter_map|flat_map|and_then|map_while|find_map|scan|then|map_or|map_or_else|unwrap_or_else)$', s.callee) and len(s.args) >= 2:
+                # adaptor with a workspace closure: the elements that come out are what the closure returns, not what
+                # went in (`paths.iter().map(|p| self.resolve(p))` yields resolver results); the closure's parameters
+                # receive the label of the receiver's elements
+                cl = None
+                for a in s.args[1:]:
+                    o = f.origin(a)
+                    if o[0] == 'rv' and o[1].get('ak') == 'closure' and o[1].get('def') in self.P.fns:
+                        cl = self.P.fns[o[1]['def']]
+                if cl is None or not self.scope(cl):
+                    ch |= self._mark(fp, s.dest['l'], lab)
+                else:
+                    if labs[0]:
+                        for pi in range(2, cl.argc + 1):
+                            ch |= self._mark(cl.path, pi, labs[0])
+                    rl = self.t[cl.path].get(0)
+                    if rl:
+                        ch |= self._mark(fp, s.dest['l'], rl)
+                    for key, lb in list(self.t[cl.path].items()):
+                        if isinstance(key, tuple) and key[0] == 0 and 'p' not in s.dest:
+                            ch |= self._mark(fp, (s.dest['l'], key[1]), lb)
             elif lab:
                 ch |= self._mark(fp, s.dest['l'], lab)
                 if s.args:
